@@ -367,7 +367,7 @@ def main_run(prop, tier, cases, *, functions=(), bounds=None, stubs=(), assumpti
     # a run that is still exploring after this long is reported as inconclusive (exit 2) instead of running on:
     # realistic changes to the code can turn linear path conditions into polynomial ones
     if not time_budget:
-        time_budget = float(os.environ.get('SYMX_TIME_BUDGET', '1500' if tier == 'quick' else '7200'))
+        time_budget = float(os.environ.get('SYMX_TIME_BUDGET', '900' if tier == 'quick' else '5400'))
     deadline = (t0 + time_budget) if time_budget else None
     pre_errors = []
     import collections
